@@ -2,6 +2,127 @@
 
 package main
 
+import (
+	"encoding/hex"
+	"fmt"
+	"io"
+	"os"
+	"path/filepath"
+
+	"github.com/VKCOM/tl/internal/pure"
+	"github.com/VKCOM/tl/internal/pure/onthefly"
+)
+
+// compiled schemas are cached by their token encoding (a pair is usually followed by many value lines)
+var kernels = map[string]*pure.Kernel{}
+var kernelErr = map[string]bool{}
+var tmpDir string
+
+func compile(enc string) *pure.Kernel {
+	if k, ok := kernels[enc]; ok {
+		return k
+	}
+	if kernelErr[enc] {
+		return nil
+	}
+	if len(kernels) > 64 {
+		kernels = map[string]*pure.Kernel{}
+		kernelErr = map[string]bool{}
+	}
+	text, ok := renderSchema(enc)
+	if !ok {
+		kernelErr[enc] = true
+		return nil
+	}
+	if tmpDir == "" {
+		d, err := os.MkdirTemp("", "hlint")
+		if err != nil {
+			return nil
+		}
+		tmpDir = d
+	}
+	file := filepath.Join(tmpDir, "s.tl")
+	if err := os.WriteFile(file, []byte(text), 0o644); err != nil {
+		return nil
+	}
+	k := pure.NewKernel(&pure.OptionsKernel{ErrorWriter: io.Discard})
+	if err := k.AddFileTL1(file); err != nil {
+		kernelErr[enc] = true
+		return nil
+	}
+	if err := k.Compile(); err != nil {
+		if os.Getenv("HLINT_DEBUG") != "" {
+			fmt.Fprintf(os.Stderr, "kernel: %v\n", err)
+		}
+		kernelErr[enc] = true
+		return nil
+	}
+	kernels[enc] = k
+	return k
+}
+
+// decode `bytes` as a value of `root` (a constructor: bare; a function: boxed) and re-encode it
+func rewrite(k *pure.Kernel, root string, data []byte) (res string) {
+	defer func() {
+		if r := recover(); r != nil {
+			res = "panic"
+		}
+	}()
+	var v onthefly.KernelValue
+	bare := true
+	if f := k.GetFunctionInstance(root); f != nil && f.ResultType() != nil {
+		st := onthefly.CreateValueStruct(f)
+		v = &st
+		bare = false
+	} else {
+		ins := k.GetObjectInstance(root)
+		if ins == nil {
+			return "noroot"
+		}
+		v = onthefly.CreateValue(ins)
+	}
+	rest, _, err := v.ReadTL1(data, nil, bare, nil)
+	if err != nil || len(rest) != 0 {
+		return "err"
+	}
+	var bb onthefly.ByteBuilder
+	v.WriteTL1(&bb, bare, nil, false, 0, nil)
+	return hx(bb.Buf())
+}
+
+func hx(b []byte) string {
+	if len(b) == 0 {
+		return "-"
+	}
+	return hex.EncodeToString(b)
+}
+
 func handleWire(op string, args []string) string {
+	switch {
+	case op == "lint.kernel" && len(args) == 1: // implementation only: does the kernel accept the schema?
+		if compile(args[0]) == nil {
+			return "err"
+		}
+		return "ok"
+	case op == "lint.wire" && len(args) == 5:
+		var data []byte
+		if args[4] != "-" {
+			d, err := hex.DecodeString(args[4])
+			if err != nil {
+				return "bad-op"
+			}
+			data = d
+		}
+		ko := compile(args[0])
+		kn := compile(args[1])
+		if ko == nil || kn == nil {
+			return "nokernel"
+		}
+		a := rewrite(ko, args[2], data)
+		if a == "err" || a == "noroot" || a == "panic" {
+			return "novalue-" + a
+		}
+		return "ok " + a + " " + rewrite(kn, args[2], data)
+	}
 	return "bad-op"
 }
